@@ -6,6 +6,8 @@
 (***************************************************************************)
 EXTENDS Integers, Sequences, FiniteSets, TLC
 
+\* the characters of a TLC string (TLC implements Len and SubSeq on strings)
+CharsOf(str) == [i \in 1..Len(str) |-> SubSeq(str, i, i)]
 RECURSIVE Join(_)
 Join(cs) == IF cs = <<>> THEN "" ELSE Head(cs) \o Join(Tail(cs))
 RECURSIVE FlatC(_)
